@@ -6,6 +6,7 @@ import (
 	"bytes"
 	"encoding/binary"
 	"fmt"
+	"math/rand"
 	"sync"
 	"testing"
 	"time"
@@ -17,6 +18,9 @@ type c15Cfg struct {
 	PV       int    `json:"protocol_version"` // 1 => encryption v0
 	Label    string `json:"label"`
 	Compress bool   `json:"compress"`
+	// the keyring is empty when the nodes are created; the key is installed and made primary at run
+	// time, before the cluster forms
+	LateKey bool `json:"key_installed_at_runtime,omitempty"`
 }
 
 type c15Tap struct {
@@ -182,6 +186,9 @@ func runC15(run *Run, seed int64, cfg c15Cfg) (out []*c01Result, cells map[strin
 		meta := canary("meta", i)
 		tap.canaries = append(tap.canaries, []byte(name), meta)
 		ring, _ := memberlist.NewKeyring(nil, k1)
+		if cfg.LateKey {
+			ring, _ = memberlist.NewKeyring(nil, nil)
+		}
 		nd, err := c.Add(NodeSpec{Name: name, Meta: meta, WithPing: true, Mutate: func(cf *memberlist.Config) {
 			cf.Keyring = ring
 			cf.ProtocolVersion = uint8(cfg.PV)
@@ -206,9 +213,19 @@ func runC15(run *Run, seed int64, cfg c15Cfg) (out []*c01Result, cells map[strin
 		tap.mu.Lock()
 		tap.nodes[nd.EP.Addr] = nd
 		tap.mu.Unlock()
+		if cfg.LateKey {
+			_ = ring.AddKey(k1)
+			_ = ring.UseKey(k1)
+		}
 		nodes = append(nodes, nd)
 		if i > 0 {
 			if _, err := nd.ML().Join([]string{nodes[0].EP.Addr}); err != nil {
+				// what the tap saw on the wire explains a failed join better than the error does
+				tap.mu.Lock()
+				for _, b := range tap.bad {
+					fail("leak", "%s (cfg %+v)", b, cfg)
+				}
+				tap.mu.Unlock()
 				fail("harness/join", "%v", err)
 				return
 			}
@@ -316,12 +333,84 @@ func runC15(run *Run, seed int64, cfg c15Cfg) (out []*c01Result, cells map[strin
 	return
 }
 
+// runC15Skip: the deployment in which an outer layer strips the label header from inbound traffic
+// (SkipInboundLabelCheck). The node still has a label and a key: whatever it writes back on an inbound
+// stream - TCP-ping ack, push/pull reply, error reply - must be an encrypt frame sealed under the
+// primary key with the label as associated data (the oracle-side parser opens it exactly that way).
+func runC15Skip(run *Run, seed int64, pv int, compress bool) (out []*c01Result) {
+	fail := func(key, f string, a ...any) {
+		out = append(out, &c01Result{"C15/" + key, fmt.Sprintf(f, a...)})
+	}
+	key := bytes.Repeat([]byte{0x11}, 16)
+	rig, err := NewRig(RigOpts{Seed: seed, Label: "conf", Key: key, PVer: uint8(pv), Compress: compress, Spec: NodeSpec{Name: "V", IP: "10.9.9.9", Mutate: func(cf *memberlist.Config) {
+		cf.SkipInboundLabelCheck = true
+		cf.ProbeInterval = noProbe
+		cf.PushPullInterval = 0
+		cf.GossipInterval = 0
+	}}})
+	if err != nil {
+		fail("harness/create", "%v", err)
+		return
+	}
+	defer rig.Close()
+	rig.NoHeader = true
+	x := rig.AddPeer("x", "10.9.1.1", 7946)
+	rig.Introduce(x, 1)
+	Settle(time.Millisecond)
+	if rig.V.Record("x") == nil {
+		fail("harness/skip-setup", "header-less sealed gossip was not accepted")
+		return
+	}
+	exchange := func(what string, plain []byte, wantType int) {
+		ce, err := x.Dial()
+		if err != nil {
+			fail("harness/dial", "%v", err)
+			return
+		}
+		defer ce.Close()
+		var frame []byte
+		rig.C.Net.Rand(func(rng *rand.Rand) { frame = BuildStreamMsg(rig.SCfg, plain, rng) })
+		if what == "cleartext-request" {
+			frame = plain
+		}
+		_, _ = ce.Write(frame)
+		Settle(50 * time.Millisecond)
+		raw := drain(ce)
+		run.Eval(1)
+		run.Cell("skip-inbound-check", what, fmt.Sprintf("pv=%d", pv))
+		if len(raw) == 0 {
+			if what != "cleartext-request" {
+				fail("harness/no-reply", "no reply to a genuine %s", what)
+			}
+			return
+		}
+		label, frames, perr := ParseStream(raw, rig.Keys, "conf")
+		_ = label // (a responder does not repeat the label header on the connection)
+		if perr != nil {
+			fail("leak/skip", "reply to %s on an inbound stream (SkipInboundLabelCheck, label \"conf\"): %d bytes that do not parse as label header + encrypt frame sealed under the primary key with the label as associated data: %v (header label %q); first bytes %x", what, len(raw), perr, label, raw[:min(len(raw), 24)])
+			return
+		}
+		for _, f := range frames {
+			if !f.Sealed {
+				fail("leak/skip", "reply to %s contains a frame that is not sealed (type %s)", what, TypeName(f.Type))
+			}
+		}
+		if wantType >= 0 && (len(frames) == 0 || frames[0].Type != wantType) {
+			fail("harness/reply-type", "reply to %s: %d frames, first type %v", what, len(frames), frames)
+		}
+	}
+	exchange("stream-ping", Enc(TPing, &WPing{SeqNo: 4242, Node: "V"}), TAck)
+	exchange("push-pull", BuildPushPull(false, []WPushNodeState{x.Self(1)}, []byte("st")), TPushPull)
+	exchange("cleartext-request", Enc(TPing, &WPing{SeqNo: 4243, Node: "V"}), TErr)
+	return
+}
+
 func TestC15(t *testing.T) {
 	run := NewRun(t, "C15", "exploration",
 		"Encrypted 4-node clusters (encryption v0 and v1 x label none/short x compression on/off, GossipVerifyOutgoing on) are driven through a script that makes every send site fire: joins and periodic push/pull in both roles, direct probes and acks, UDP black-holed between two nodes with TCP open (indirect probe requests, relayed acks, TCP fallback ping and its ack), user best-effort / reliable / SendToAddress / gossip broadcasts, UpdateNode, garbage and wrong-key streams from an outsider (error replies), a crash (failed probes, nacks, suspect messages also piggybacked on probes, dead messages), key rotation add/use/remove while traffic flows, a graceful leave. Oracle on EVERY buffer at the innermost transport: packet = [label header][version][nonce][ciphertext||tag] that opens under the sender's current primary key with the label as associated data; stream = the dialer's label header, then only encrypt frames whose ciphertext opens under the current primary with type|length|label as associated data; plus a canary scan (node names, metadata, user payloads, user state, ack payloads carry canaries that must never appear in a raw buffer). Required coverage (else inconclusive): opened plaintext types x path.")
 	defer run.Finish()
 	run.Assume("'for every code path' is structural: this check shows it for the send sites in the required coverage matrix and claims no more", "key changes are made at quiescent points, so the sender's current primary is well defined for every buffer")
-	cfgs := []c15Cfg{{5, "", false}, {5, "conf", true}, {1, "conf", false}, {1, "", true}, {2, "c", false}, {4, "", true}}
+	cfgs := []c15Cfg{{5, "", false, false}, {5, "conf", true, false}, {1, "conf", false, false}, {1, "", true, false}, {2, "c", false, false}, {4, "", true, false}, {5, "late", false, true}, {1, "", true, true}}
 	for i, cfg := range cfgs {
 		id := fmt.Sprintf("cfg/%d", i)
 		if !run.Mine(i) || !run.Want(id) {
@@ -350,7 +439,24 @@ func TestC15(t *testing.T) {
 			run.Sample(cfg)
 		}
 	}
+	for i := 0; i < run.Pick(4, 64); i++ {
+		id := fmt.Sprintf("skip/%d", i)
+		if !run.Mine(i) || !run.Want(id) {
+			continue
+		}
+		run.Journal(id, "")
+		var res []*c01Result
+		pv := []int{5, 1, 2, 4}[i%4]
+		err := Bubble(t, func() { res = runC15Skip(run, run.Seed()*53+int64(i), pv, i%8 >= 4) })
+		if err != nil {
+			res = append(res, &c01Result{"C15/bubble", err.Error()})
+		}
+		for _, r := range res {
+			run.Violation(id, r.Key, r.What, map[string]any{"protocol_version": pv})
+		}
+	}
 	if !run.Replaying() {
+		run.Require("skip-inbound-check|stream-ping|pv=5", "skip-inbound-check|push-pull|pv=1", "skip-inbound-check|cleartext-request|pv=5")
 		for _, ty := range []string{"ping", "indirectPing", "ack", "nack", "suspect", "alive", "dead", "user", "compound"} {
 			run.Require("sent|packet|" + ty)
 		}
